@@ -78,8 +78,9 @@ func Parse(fontInfo *sfnt.Font, input string) (lookups gtab.LookupList, err erro
 }
 
 type parser struct {
-	tokens  <-chan item
-	backlog []item
+	tokens   <-chan item
+	backlog  []item
+	lastLine int // line of the last item received from the lexer
 
 	fontInfo *sfnt.Font
 	cmap     cmap.Subtable
@@ -1343,7 +1344,14 @@ func (p *parser) readItem() item {
 		p.backlog = p.backlog[:n]
 		return item
 	}
-	return <-p.tokens
+	next, ok := <-p.tokens
+	if ok {
+		p.lastLine = next.line
+	} else {
+		// the lexer has finished: errors are reported for the last line seen
+		next.line = p.lastLine
+	}
+	return next
 }
 
 func (p *parser) peek() item {
